@@ -16,8 +16,8 @@ EXPLANATION = ('Each solver is called through its public __call__ with N symboli
                'that record i does not depend on the other points (out_i with point j replaced by a fresh point is equal).')
 BOUNDS = ['N in {1, 2, 3}; points symbolic and unordered; geometry enumerated']
 OUTSIDE = ['list/tuple/array equivalence and dtype handling (numpy.asarray), record-array construction (numpy.rec.fromarrays), CSV '
-           'round trip (csv module, float repr): C code, not encodable', 'constructor rejection of unknown / missing parameter names: '
-           'a statement about strings handled by set operations in C; see DESIGN.md',
+           'round trip (csv module, float repr): C code, not encodable', 'unknown keyword names outside the candidate set (all attribute '
+           'names of the class + three fresh names): the name check itself runs in C-level set operations on concrete strings',
            'solvers documented as grid-dependent (Mader dx, Sedov max(r), SDRZ table, Riemann internal grid) are exempt from the '
            'independence clause']
 ASSUMPTIONS = []
@@ -125,6 +125,96 @@ def _same(a, b):
         return False
 
 
+class CtorNames(Obligation):
+    """ExactSolver.__init__: a keyword that is not a declared parameter is rejected with ValueError -- in particular every name
+    that collides with an attribute of the class (geometry on a geometry-specific wrapper, _run, parameters, ...), which is
+    where an attribute-based check would go wrong.  The name is a symbolic choice among the candidates (one path each)."""
+
+    def __init__(self, key, cls):
+        self.key, self.cls = key, cls
+        self.id = 'C05.ctor.unknown.%s' % key
+        self.modules = []
+        self.extra_shim = {}
+        base = H.mod('exactpack.base')
+        self.functions = [base.ExactSolver.__init__]
+        params = set(getattr(cls, 'parameters', {}))
+        cands = sorted(n for n in dir(cls) if not n.startswith('__') and n not in params)
+        self.cands = cands[:60] + ['bogus_parameter', 'Gamma_', 'gamm']
+        self.bounds = 'keyword name chosen symbolically among %d candidates (all non-dunder attributes of the class that are not declared parameters, plus three fresh names); value = 1.0' % len(self.cands)
+        self.skip_validation = True
+        self.max_paths = len(self.cands) + 5
+        self.budget_s = 200
+
+    def build(self, mk):
+        k = H.choose(mk, 'name_idx', len(self.cands))
+        self.cls(**{self.cands[k]: 1.0})
+        return {'_raised': 0, '_name': self.cands[k]}
+
+    def on_exception(self, e):
+        return {'_raised': 1, '_valueerror': 1 if isinstance(e, ValueError) else 0, '_exc': type(e).__name__}
+
+    def domain(self, V):
+        return [T.ge(V('name_idx'), T.ZERO), T.le(V('name_idx'), T.const(len(self.cands) - 1))]
+
+    def claims(self, cx):
+        if cx['_raised']:
+            cx.eq('unknown keyword raises ValueError' if cx['_valueerror'] else 'unknown keyword raises %s instead of ValueError' % cx['_exc'],
+                  cx['_valueerror'], 1)
+        else:
+            cx.true('undeclared keyword %r accepted' % cx['_name'], False if not cx.symbolic else SymBool(T.FALSE))
+
+
+class CtorMissing(Obligation):
+    """a declared parameter without a class default must be supplied: constructing without it raises ValueError"""
+
+    def __init__(self, key, cls):
+        self.key, self.cls = key, cls
+        self.id = 'C05.ctor.missing.%s' % key
+        self.modules = []
+        self.extra_shim = {}
+        self.functions = [H.mod('exactpack.base').ExactSolver.__init__]
+        self.missing = sorted(p for p in cls.parameters if not hasattr(cls, p))
+        self.bounds = 'parameters without class default: %s; each omitted in turn (symbolic choice)' % self.missing
+        self.skip_validation = True
+
+    def build(self, mk):
+        k = H.choose(mk, 'omit_idx', len(self.missing))
+        kw = {p: 1.0 for i, p in enumerate(self.missing) if i != k}
+        self.cls(**kw)
+        return {'_raised': 0, '_name': self.missing[k]}
+
+    def on_exception(self, e):
+        return {'_raised': 1, '_valueerror': 1 if isinstance(e, ValueError) else 0, '_exc': type(e).__name__}
+
+    def domain(self, V):
+        return [T.ge(V('omit_idx'), T.ZERO), T.le(V('omit_idx'), T.const(len(self.missing) - 1))]
+
+    def claims(self, cx):
+        if cx['_raised']:
+            cx.eq('missing parameter raises ValueError' if cx['_valueerror'] else 'missing parameter raises %s instead of ValueError' % cx['_exc'],
+                  cx['_valueerror'], 1)
+        else:
+            cx.true('construction without %r accepted' % cx['_name'], False if not cx.symbolic else SymBool(T.FALSE))
+
+
+def _ctor_classes():
+    import inspect
+    base = H.mod('exactpack.base')
+    mods = ['exactpack.solvers.noh', 'exactpack.solvers.noh2', 'exactpack.solvers.sedov', 'exactpack.solvers.cog', 'exactpack.solvers.kenamond',
+            'exactpack.solvers.dsd', 'exactpack.solvers.heat', 'exactpack.solvers.ehep', 'exactpack.solvers.sdrz', 'exactpack.solvers.mader',
+            'exactpack.solvers.ep_piston', 'exactpack.solvers.guderley', 'exactpack.solvers.rmtv', 'exactpack.solvers.suolson']
+    out = []
+    for mn in mods:
+        try:
+            m = H.mod(mn)
+        except Exception:
+            continue
+        for n, c in sorted(vars(m).items()):
+            if inspect.isclass(c) and issubclass(c, base.ExactSolver) and c is not base.ExactSolver:
+                out.append((mn.split('.')[-1] + '.' + n, c))
+    return out
+
+
 def obligations(tier):
     obs = []
     ns = (1, 2) if tier == 'quick' else (1, 2, 3)
@@ -201,6 +291,17 @@ def obligations(tier):
                    functions=[sd.SteadyDetonationReactionZone._run])
         o.call = lambda s, pts, t: s._run(pts, t, NP=3)
         obs.append(o)
+    classes = _ctor_classes()
+    if tier == 'quick':
+        keep = ('noh.Noh', 'noh.PlanarNoh', 'noh.SphericalNoh', 'sedov.Sedov', 'sedov.PlanarSedov', 'cog.Cog1', 'cog.PlanarCog1', 'cog.Cog8',
+                'cog.SphericalCog13', 'kenamond.Kenamond1', 'kenamond.Kenamond2', 'dsd.CylindricalExpansion', 'heat.Rod1D', 'heat.PlanarSandwich',
+                'ehep.EscapeOfHEProducts', 'sdrz.SteadyDetonationReactionZone', 'ep_piston.EPpiston', 'noh2.Noh2', 'noh2.PlanarNoh2',
+                'guderley.Guderley', 'mader.Mader')
+        classes = [(k, c) for k, c in classes if k in keep]
+    for k, c in classes:
+        obs.append(CtorNames(k, c))
+        if any(not hasattr(c, p) for p in c.parameters):
+            obs.append(CtorMissing(k, c))
     return obs
 
 
